@@ -25,7 +25,7 @@ ASSUMPTIONS = [
     "targets come from a small alphabet chosen so that the implied shifts are non-zero and distinct; larger alphabets are sampled by a seeded random walk (thorough, auxiliary)",
     "the differential oracle uses the library itself on a fresh cube: it decides history-independence; the absolute shift model (C09's dispersion constant, linear drift) decides the single shift",
 ]
-REQUIRED_OUTCOMES = ["state/ok", "state/back_to_folding_values", "state/repeat_noop"]
+REQUIRED_OUTCOMES = ["state/ok", "state/back_to_folding_values", "state/repeat_noop", "centre/ok"]
 
 
 def bounds(tier: str) -> dict:
@@ -41,6 +41,8 @@ def shards(tier: str, seed: int) -> list:
             out.append({"cube": cube, "depth": b["depth"], "first": first})
     if tier == "thorough":
         out.append({"cube": b["cubes"][0], "depth": 0, "first": -1, "random": 400})
+    # the copy returned by centre() is a cube folded at the parent's current values: it must re-tune like a fresh cube holding the same data
+    out.append({"cube": [3, 4, 64], "depth": 2, "first": -2, "centre": True})
     # large cubes (more sub-integrations than any block size is likely to be), long observation, period refinements of a few 1e-6
     for cube in ([[128, 2, 32], [200, 4, 50]] if tier == "quick" else [[65, 1, 16], [128, 2, 32], [200, 4, 50], [1000, 2, 64]]):
         for first in range(6):
@@ -180,6 +182,8 @@ def run_shard(shard: dict, ctx, res, only=None) -> None:
         res.evaluations += 1
         _check_state(shape, hist, fd, orig, res, shard)
         return
+    if shard.get("centre"):
+        return _centre(shape, shard, res, only)
     if shard.get("random"):
         import random
 
@@ -240,6 +244,54 @@ def run_shard(shard: dict, ctx, res, only=None) -> None:
     res.count("transitions", ntrans)
     res.maximum("max_depth", shard["depth"])
     res.sample({"shard": shard, "example_history": [list(o) for o in max(seen.values(), key=len)], "distinct_states": len(seen)}, cap=1)
+
+
+def _centre(shape, shard, res, only):
+    from sigpyproc.foldedcube import FoldedData
+
+    ops = _ops()
+    pres = [[], [("dm", DM0 + 15)], [("p", P0 * (1 + 1e-3)), ("dm", DM0 + 30)], [("dm", DM0 - 10), ("p", P0 * 1.37)]]
+    seqs = [[a] for a in ops] + [[a, b] for a in ops for b in ops]
+    for pi, pre in enumerate(pres):
+        for seq in seqs:
+            inner = ["centre", pi, [list(o) for o in seq]]
+            if only is not None and inner != only:
+                continue
+            res.evaluations += 1
+            case = {"shard": shard, "inner": inner}
+            try:
+                fd, _ = _fresh(shape)
+                # a pulse, so that centring has something to find
+                fd.data[:, :, 20:24] += 1000.0
+                for o in pre:
+                    _apply(fd, o)
+                cen = fd.centre()
+                if cen.dm != fd.dm or cen.period != fd.period:
+                    res.violation({"site": "FoldedData.centre", "symptom": "centred copy reports a different dm/period than its parent"}, case, f"{cen.dm}/{cen.period} vs {fd.dm}/{fd.period}")
+                    continue
+                start = np.array(cen.data)
+                ref = FoldedData(start.copy(), fd.header, fd.period, fd.dm)
+                cen.update_dm(cen.dm)
+                cen.update_period(cen.period)
+                if not np.array_equal(cen.data, start):
+                    res.violation({"site": "FoldedData.centre", "symptom": "re-installing the reported dm/period changes the centred copy"}, case, f"after history {pre}")
+                    continue
+                for o in seq:
+                    _apply(cen, o)
+                    _apply(ref, o)
+                if not np.array_equal(cen.data, ref.data) or cen.dm != ref.dm or cen.period != ref.period:
+                    res.violation({"site": "FoldedData.centre", "symptom": "centred copy re-tunes differently from a fresh cube holding the same data"}, case,
+                                  f"parent history {pre}, then {seq}")
+                    continue
+                cen.update_dm(fd.dm)
+                cen.update_period(fd.period)
+                if not np.array_equal(cen.data, start):
+                    res.violation({"site": "FoldedData.centre", "symptom": "returning to the values it was created with does not restore the centred copy"}, case, f"parent history {pre}, then {seq}")
+                    continue
+                res.outcome("centre/ok")
+                res.nontrivial += 1
+            except Exception as e:  # noqa: BLE001
+                res.violation({"site": "FoldedData.centre", "symptom": f"raised {type(e).__name__}"}, case, repr(e))
 
 
 def finalize(total, ctx) -> dict:
